@@ -32,3 +32,7 @@ package crypto
 //@ func Sign   trusted
 //@   modifies nothing
 //@   ensures result1 == nil ==> !isNil(result0) && fresh(result0) && len(result0) == 65 && content(result0) == sigOf(content(hash), prv)
+
+// the address of a created contract: a function of creator and transaction hash
+//@ func CreateContractAddress   pure trusted
+//@   opt heap-independent
